@@ -370,6 +370,19 @@ RECIPE_LIST = [
     Recipe("oSl3", "op", "ops.GetsliceOp((slice(0, 7, 3),))", OP("GetsliceOp", index=(("slice", 0, 7, 3),))),
     Recipe("oSl", "op", "ops.GetsliceOp((slice(0, 7, 5),))", OP("GetsliceOp", index=(("slice", 0, 7, 5),)),
            alt="ops.GetsliceOp(index=(slice(0, 7, 5),))"),
+    # argument tuples that differ only in nesting / grouping / position of equal atoms
+    Recipe("oSlA1", "op", "ops.GetsliceOp((slice(None), None))", OP("GetsliceOp", index=(("slice", None, None, None), None))),
+    Recipe("oSlA2", "op", "ops.GetsliceOp((None, slice(None)))", OP("GetsliceOp", index=(None, ("slice", None, None, None)))),
+    Recipe("oSlB1", "op", "ops.GetsliceOp((slice(None),))", OP("GetsliceOp", index=(("slice", None, None, None),)),
+           alt="ops.GetsliceOp(slice(None))"),  # a bare index is the 1-tuple of it
+    Recipe("oSlB2", "op", "ops.GetsliceOp((None, None, None))", OP("GetsliceOp", index=(None, None, None))),
+    Recipe("oSlC1", "op", "ops.GetsliceOp((slice(1, 2),))", OP("GetsliceOp", index=(("slice", 1, 2, None),)),
+           alt="ops.GetsliceOp(index=slice(1, 2))"),
+    Recipe("oSlC2", "op", "ops.GetsliceOp((1, 2, None))", OP("GetsliceOp", index=(1, 2, None))),
+    Recipe("oSf1", "op", "ops.SumOp((-3, -4), False)", OP("SumOp", axis=(-3, -4), keepdims=False), alt="ops.SumOp(axis=(-3, -4))"),
+    Recipe("oSf2", "op", "ops.SumOp(-3, (-4, False))", OP("SumOp", axis=-3, keepdims=(-4, False)),
+           alt="ops.SumOp(keepdims=(-4, False), axis=-3)"),
+    Recipe("oRs3", "op", "ops.ReshapeOp(((7, 5),))", OP("ReshapeOp", shape=((7, 5),))),
     Recipe("oSl2", "op", "ops.GetsliceOp((slice(0, 7), 5))", OP("GetsliceOp", index=(("slice", 0, 7, None), 5))),
     # ---- parametrised term types -----------------------------------------------------------------------
     Recipe("tN1", "type", "Number[complex, bytes]", ("type", "Number", ("complex", "bytes"))),
